@@ -208,6 +208,7 @@ class Execution:
         self.prop = "none"
         self.aborted = False
         self.putter = {}
+        self.prs = {}
         self.unexpected = None
         n = len(script)
         self.routes = {}
@@ -268,6 +269,7 @@ class Execution:
         if pr is None:
             raise tlc.MachineryError("C13: cannot find the worker's result among the thread arguments %r" % (th._args,))
         orig = pr.stop
+        self.prs[w] = pr
 
         def stop():
             self.told.add(w)
@@ -612,6 +614,7 @@ def run(tier, pid="C13"):
 
     # ---- B2: executions under the scheduler -----------------------------------------------------
     traces = {"suite": [], "stream": []}
+    forgotten = [0]
 
     def record(trace, dl, ex, kind):
         v = trace["variant"]
@@ -624,6 +627,10 @@ def run(tier, pid="C13"):
             nontrivial_key=sig_hash([v, trace["script"], fault_sig(trace), trace.get("makeFault"), trace.get("intrAt"),
                                      trace.get("cfault"), [e["thr"] for e in trace["ev"]]]) if nt else None,
         )
+        if v == "stream" and ex.told and dl is None:
+            # recorded, not alarmed on: stop() delivered before the worker's own startTestRun() is forgotten
+            if any(not ex.prs[w].shouldStop for w in ex.told):
+                forgotten[0] += 1
         if dl is not None:
             rep.violation("Termination", "B2:%s:deadlock:%s" % (v, fault_sig(trace)),
                           {"kind": "B2", "trace": trace, "waiting": dl},
@@ -649,7 +656,7 @@ def run(tier, pid="C13"):
         if len(rep.violations) >= 3:
             break
     rng = random.Random(rep.seed * 104729 + 13)
-    nrand = 700 if quick else 8000
+    nrand = 500 if quick else 8000
     for j in range(nrand):
         if len(rep.violations) >= 3:
             break
@@ -659,6 +666,7 @@ def run(tier, pid="C13"):
         record(trace, dl, ex, "random")
     rep.extra["systematic"] = sys_counts
     rep.extra["random_executions"] = nrand
+    rep.extra["stream_executions_where_a_delivered_stop_was_reset_by_startTestRun"] = forgotten[0]
 
     # ---- B1: exported / simulated behaviours replayed ---------------------------------------------
     for v in ("suite", "stream"):
